@@ -46,6 +46,18 @@ def run(ctx):
     K.check_core_table(ctx, P, methods=("sign", "partial_sign", "pop_prove", "verify", "partial_verify", "pop_verify", "multi_sig_verify"))
     with ctx.prefixed("nodebug|"):
         K.check_core_table(ctx, ctx.prog("blst", "nodebug"), methods=("sign", "partial_sign", "pop_prove", "verify", "partial_verify", "pop_verify", "multi_sig_verify"))
+    # a signature labelled with scheme V is produced and checked by the draft's scheme V: the library's entry points reach the
+    # scheme trait of the label (the tag table above is per trait; a wrapper arm that calls another trait's method uses the
+    # other ciphersuite's tag and message rule)
+    from . import spec as SP
+    from .c01 import WRAPPERS
+
+    nsp = 0
+    for k in WRAPPERS:
+        f = P.fns.get(k)
+        if f is not None and k != "Signature<C>::from_shares":
+            nsp += SP.check_trait_by_scheme(ctx, "E2.dispatch", P, f, ("sign", "verify", "partial_sign", "partial_verify", "aggregate_verify", "multi_sig_verify", "pop_prove", "pop_verify", "core_sign", "core_verify"))
+    ctx.floor("E2.dispatch", "(wrapper, scheme) pairs reaching the scheme's own trait method", nsp, 14)
     # the user-facing proof-of-possession entry points are the draft's PopProve / PopVerify
     K.check_pop_chain(ctx, P)
     # compressed point encoding for the byte form of keys and proofs of possession
